@@ -8,7 +8,7 @@ for s in $seeds; do
   prop=${s%%-*}
   git -C /repo apply /verif/seeded/$s/patch.diff || { echo "$s: patch does not apply"; continue; }
   out=$(bin/rdmcheck -property all -tier quick -fixtures=false 2>&1)
-  git -C /repo checkout -- .
+  git -C /repo checkout -- . ; git -C /repo clean -fdq -e httpClient/httpClient
   hits=$(echo "$out" | grep '^VIOLATION' | sed 's/.*property=\([A-Z0-9]*\).*/\1/' | sort -u | tr '\n' ' ')
   broken=$(echo "$out" | grep -c '^CHECKER-BROKEN\|^UNDECIDED')
   own=MISSED; echo " $hits" | grep -q " $prop " && own=caught
